@@ -95,7 +95,9 @@ class InversionImagingWTilde(AbstractInversionImaging):
         """
 
         if self.preloads.data_vector_mapper is not None:
-            return self.preloads.data_vector_mapper
+            # Need to copy because `_data_vector_func_list_and_mapper` writes into the returned array.
+
+            return copy.copy(self.preloads.data_vector_mapper)
 
         if not self.has(cls=AbstractMapper):
             return None
@@ -293,7 +295,9 @@ class InversionImagingWTilde(AbstractInversionImaging):
         """
 
         if self.preloads.curvature_matrix_mapper_diag is not None:
-            return self.preloads.curvature_matrix_mapper_diag
+            # Need to copy because the off-diagonal blocks are written into the returned matrix.
+
+            return copy.copy(self.preloads.curvature_matrix_mapper_diag)
 
         if not self.has(cls=AbstractMapper):
             return None
